@@ -55,7 +55,18 @@ MULTILINE_SEEDS = [
     "x = (a\n     if b\n     else c)\n",
 ]
 
-WIDE_SEEDS = MULTILINE_SEEDS + [
+# Different expression nodes with one source-like text (seed C15-j): the `_hash` must tell them apart
+HASH_TWIN_SEEDS = [
+    's = {x}\nt = f"{x}"\n',
+    's = {f(x)}\nt = f"{f(x)}"\n',
+    'print({a + b}, f"{a + b}")\n',
+    's = {(a, b)}\nt = f"{a, b}"\n',
+    'd = {a: b}\nt = f"{a: b}"\n',
+    "x = u'a'\ny = 'a'\nz = f'a'\nw = f'{x}' f\"{x!s}\"\n",
+    "t = a[1, 2], (1, 2), a[1:2], a[(1, 2)]\n",
+]
+
+WIDE_SEEDS = MULTILINE_SEEDS + HASH_TWIN_SEEDS + [
     "import " + ", ".join(f"m{j}" for j in range(12)) + "\n",
     "from pkg import (\n" + "".join(f"    n{j} as p{j},\n" for j in range(13)) + ")\n",
     "x = [" + ", ".join(str(j) for j in range(11)) + "]\ny = (" + ", ".join(f"-{j}" for j in range(1, 12)) + ")\n",
